@@ -26,7 +26,7 @@ from harness import common
 common.use_repo()
 
 KINDS = ["int1", "int0", "str", "tuple", "obj", "task", "job"]
-MAX_YIELDS = 5000  # a generator producing more than this is reported, not followed
+MAX_YIELDS = 1000  # a generator producing more than this is reported, not followed
 
 
 class CaseTimeout(Exception):
